@@ -40,6 +40,7 @@ type c15In struct {
 	Attempts int     `json:"read_attempts"`
 	Script   []c15Op `json:"script"`
 	Class    string  `json:"class"`
+	RemoveKind string `json:"remove_kind,omitempty"` // symlinked name (symfile | symfar | symchain): "" / target = remove (re-create) the file the link points to; link = remove the link (re-create: a new file and a new link to it)
 	PathForm string  `json:"path_form,omitempty"` // how the followed path is spelled (the writer always uses the plain absolute path): "" | clean | dot | dslash | updown | relative | dotrel | symdir
 	Batch    int     `json:"batch,omitempty"` // via batcher: batch size (0 = 1: every line is a full batch; larger: partial batches leave on the 250 ms flush)
 	Via      string  `json:"via,omitempty"` // "" = followreader.New directly; "batcher" = batchers.TailFilesToChan (batch size 1)
@@ -114,6 +115,26 @@ func followPath(dir, form string, writer *string) (string, error) {
 			return "./" + rel, nil
 		}
 		return rel, nil
+	case "symfile", "symfar", "symchain": // the followed NAME is a symbolic link to the file (same directory / another directory / two links)
+		target := filepath.Join(dir, "target.log")
+		if form != "symfile" {
+			if err := os.MkdirAll(filepath.Join(dir, "elsewhere"), 0o755); err != nil {
+				return "", err
+			}
+			target = filepath.Join(dir, "elsewhere", "target.log")
+		}
+		first := target
+		if form == "symchain" {
+			first = filepath.Join(dir, "hop.log")
+			if err := os.Symlink(target, first); err != nil {
+				return "", err
+			}
+		}
+		if err := os.Symlink(first, filepath.Join(dir, name)); err != nil {
+			return "", err
+		}
+		*writer = target
+		return filepath.Join(dir, name), nil
 	case "symdir": // the directory is reached through a symbolic link
 		realDir := filepath.Join(dir, "real")
 		if err := os.MkdirAll(realDir, 0o755); err != nil {
@@ -161,7 +182,9 @@ func siblingAct(dir, action, name string) {
 var siblingNames = []string{"old-followed.log", "xfollowed.log", "followed.log.1", "followed.log~", "followed",
 	"sibdir/followed.log", "followed.log.d"}
 
-var pathForms = []string{"clean", "dot", "dslash", "updown", "relative", "dotrel", "symdir"}
+var pathForms = []string{"clean", "dot", "dslash", "updown", "relative", "dotrel", "symdir", "symfile", "symfar", "symchain"}
+
+func isSymName(form string) bool { return form == "symfile" || form == "symfar" || form == "symchain" }
 
 func c15Run(in c15In) (out c15Out) {
 	dir := filepath.Join(workDir(), fmt.Sprintf("case%d", atomic.AddInt64(&caseSeq, 1)))
@@ -172,6 +195,12 @@ func c15Run(in c15In) (out c15Out) {
 	if ferr != nil {
 		return c15Out{Term: 2, Note: "setup: " + ferr.Error()}
 	}
+	sibDir := filepath.Dir(path) // siblings live next to the followed NAME
+	linkRemoval := isSymName(in.PathForm) && in.RemoveKind == "link"
+	if isSymName(in.PathForm) {
+		sibDir = dir
+	}
+	incarnation := 0
 	if in.C0 != nil {
 		b, _ := hex.DecodeString(*in.C0)
 		if err := os.WriteFile(path, b, 0o644); err != nil {
@@ -389,7 +418,13 @@ func c15Run(in c15In) (out c15Out) {
 			R.log = append(R.log, c15Ent{K: 1})
 			R.mu.Unlock()
 			removes++
-			err = os.Remove(path)
+			// "removal of the file" for a symlinked name: the name stops resolving to the file - the target is removed
+			// (the link dangles) or the link itself is removed
+			if linkRemoval {
+				err = os.Remove(follow)
+			} else {
+				err = os.Remove(path)
+			}
 		case "pause":
 			// wake a Read that is blocked, then keep the consumer outside Read: whatever the writer does until
 			// "resume" is pending all at once when Read is called again (the select order is then arbitrary)
@@ -422,15 +457,23 @@ func c15Run(in c15In) (out c15Out) {
 			R.mu.Lock()
 			R.log = append(R.log, c15Ent{K: 5})
 			R.mu.Unlock()
-			siblingAct(filepath.Dir(path), op.Data, op.Name)
+			siblingAct(sibDir, op.Data, op.Name)
 		case "create":
 			R.mu.Lock()
 			R.log = append(R.log, c15Ent{K: 2})
 			R.mu.Unlock()
+			if linkRemoval { // a new file under a new name, and a new link to it
+				incarnation++
+				path = fmt.Sprintf("%s.%d", path, incarnation)
+			}
 			var f *os.File
 			f, err = os.OpenFile(path, os.O_CREATE|os.O_EXCL|os.O_WRONLY, 0o644)
 			if err == nil {
 				f.Close()
+				if linkRemoval {
+					os.Remove(follow) // a dangling link left from the start (file missing at start)
+					err = os.Symlink(path, follow)
+				}
 			}
 		}
 		if err != nil {
@@ -658,6 +701,10 @@ func c15CaseOf(orig, in c15In, out, raw c15Out) Case {
 	}
 	if !in.Poll && in.Reopen && inDomain {
 		tags = append(tags, "kf:C15-notify-stale-delete")
+	}
+	// domain of finding C15-notify-symlink: inotify mode and the followed name is a symbolic link
+	if !in.Poll && isSymName(in.PathForm) {
+		tags = append(tags, "kf:C15-notify-symlink")
 	}
 	for _, op := range in.Script {
 		if op.Op == "pause" {
@@ -935,6 +982,19 @@ func c15Plan(r *Rng, n int, notify bool) []c15In {
 		in := g.mk(c.name, c.poll, c.reopen, tail, r.Range(4, 24))
 		// every class meets every spelling of the path over the cycles (and over the seeds)
 		in.PathForm = pathForms[(i+i/len(classes)+formOff)%len(pathForms)]
+		if in.Poll && !in.Reopen && in.Via == "" && (i/len(classes))%4 != 3 {
+			// plain polling compares the path with the open file when it looks (os.Stat follows links): make sure
+			// symlinked names meet this branch in every run
+			in.PathForm = []string{"symfile", "symfar", "symchain"}[(i/len(classes)+i)%3]
+		}
+		if isSymName(in.PathForm) && !in.Poll && (i/len(classes))%4 != 0 {
+			// notify cannot follow a symlinked name at all (finding C15-notify-symlink, every such case stalls for the
+			// full watchdog time): keep a few per run, give the others the next plain form
+			in.PathForm = pathForms[(i+3)%7]
+		}
+		if isSymName(in.PathForm) && r.Bool() {
+			in.RemoveKind = "link"
+		}
 		// other entries of the directory are created / written / removed / renamed in between
 		for k := r.Range(1, 5); k > 0 && len(in.Script) < 34; k-- {
 			op := c15Op{Op: "sibling", Name: Pick(r, siblingNames), WaitUs: g.wait(),
@@ -993,7 +1053,8 @@ func main() {
 		Rule: "real followreader.New (notify via inotify, poll with PollDelay 1 ms and ReadAttempts in {1,2,5}) on a temporary file; seeded writer histories of 4..30 operations " +
 			"(classes: in-place appends with seeded pauses 0..2.5 ms and occasional wait-for-drain; burst of back-to-back appends; removal after drain at the end (plain follow: EOF expected); " +
 			"rotation = remove after drain, re-create, append (polling: first append shorter than the removed file and drained before the next); file missing at start with re-open; " +
-			"every class x spelling of the followed path {clean absolute, dir/./f, dir//f, dir/sub/../f, relative to the working directory, ./relative, through a symlinked directory} (the writer uses the plain name); " +
+			"every class x spelling of the followed path {clean absolute, dir/./f, dir//f, dir/sub/../f, relative to the working directory, ./relative, through a symlinked directory, the name itself a symbolic link to the file in the same directory / in another directory / through two links} (the writer uses the real name; " +
+			"for a symlinked name removal = the name stops resolving to the file: the target is removed and later re-created, or the link is removed and later re-created pointing to a new file - both are generated; notify + symlinked name is the domain of finding C15-notify-symlink and only those of the first class cycle are kept; plain polling classes get a symlinked name in three of four cycles); " +
 			"1..5 operations on OTHER entries of the directory (old-followed.log, xfollowed.log, followed.log.1, followed.log~, followed, sibdir/followed.log, directory followed.log.d: create+remove, write, rename, directory with a file) inserted at random positions of every script; " +
 			"plain follow: after the removal the path is re-created at once or after 1..50 ms, empty or with content (the stream has to end, nothing of the new file is delivered; notify and poll); " +
 			"batcher-burst: TailFilesToChan with batch size 64, [1-3 lines, 300-400 ms, burst of 2-6 lines] x 2-3, the consumer holds every batch and re-reads all of them at the end; " +
